@@ -99,8 +99,27 @@ def gen_noisy_timer(rng, walk):
     return lines
 
 
+def gen_rearm_walk(rng, walk):
+    """template: the re-arm idiom inside the exploration — a message in flight at the snapshot makes its receiver cancel a pending
+    timer and set it again with a longer delay in one handler, while another timer of the same process lies in between: the
+    simulator fires the other timer before the re-armed one, and so must some explored path"""
+    seed = rng.randrange(12)
+    a = rng.choice([2, 3]); b = a + rng.choice([2, 4]); c = b + rng.choice([2, 6])
+    lines = [f"seed {seed}", f"draws {sim_suite.draws_for(seed)}", "node n0", "node n1", "proc p0 n0 rec", "proc p1 n1"]
+    lines += ["rule p1 0 L:m0 0 S:m1:=r:p0", f"rule p0 0 L:m0 0 T:t0:{a} T:t1:{b}",
+              f"rule p0 0 M:m1 0 C:t0 {rng.choice(['T', 'O'])}:t0:{c}", "rule p0 0 T:t0 0 L:m2:=expired", "rule p0 0 T:t1 0 L:m3:=work"]
+    lines += ["net delay 1", "local p0 m0 =a", "local p1 m0 =a", "refenum",
+              f"mc run {rng.choice(['dfs', 'bfs'])} {rng.choice(['full', 'disabled'])} inv=none goal=noev prune=none collect=none"]
+    for _ in range(max(walk, 3)):
+        lines += ["step", "proj"]
+    lines += ["steps 3", "obs"]
+    return lines
+
+
 def gen_snapshot_scenario(rng, with_steps=True, faults=True, walk=0):
     """a simulated prefix, then `mc run` (snapshot + exploration), optionally followed by a simulated walk"""
+    if walk and rng.random() < 0.06:
+        return gen_rearm_walk(rng, walk)
     r0 = rng.random()
     if r0 < 0.12:
         return gen_cut_in_flight(rng, walk)
@@ -340,7 +359,7 @@ def report(v, bad, name, monitor=None, monfail=()):
 
 def judge_sim_path_covered(v, scen, impl, model, name, d1_text):
     """C04: every process-visible state the simulation passes through after the snapshot is among the states the checker evaluated"""
-    nviol = nknown = nchecked = 0
+    nviol = nknown = nchecked = nd17 = 0
     for nm, lines in scen:
         a, b = impl.get(nm, []), model.get(nm, [])
         if any("result=capped" in l or "panic" in l for l in a) or not any(l.startswith("run 0 result=ok") for l in a):
@@ -361,12 +380,31 @@ def judge_sim_path_covered(v, scen, impl, model, name, d1_text):
             if mc_checks.has_finding(v.pid, "D1-override-leaves-old"):
                 v.known_finding(d1_text)
             continue
+        if impl_eq_model and mc_checks.has_finding(v.pid, "D17-identical-inflight-blocks-faults"):
+            # finding D17: the checker's identical-message reduction looks at (message, sender, receiver) only.  If the missing states
+            # are reached by the reference semantics once flights are treated as interchangeable only when their remaining delivery
+            # options are equal too (W lines of the model, `refrelax`), the difference is exactly that finding
+            from .common import run_blocks, DRIVER as LEAN_DRIVER
+            relaxed = [("refrelax" if l == "refenum" else l) for l in lines]
+            if "refrelax" not in relaxed:
+                k = next(j for j, l in enumerate(relaxed) if l.startswith("mc run"))
+                relaxed.insert(k, "refrelax")
+            o, _, _ = run_blocks([LEAN_DRIVER, "sim"], [sim_suite.block("w", relaxed)], 60)
+            w = o.get("w", [])
+            wset = set(nproj(l[2:]) for l in w if l.startswith("W "))
+            if any(l.startswith("wres=ok") for l in w) and all(p in wset for p in missing):
+                nd17 += 1
+                v.known_finding("D17-identical-inflight-blocks-faults: an identical message already in flight at the snapshot (taken over with "
+                                "options noFail) blocks a later identical message sent during model checking, so the faults of the newer copy "
+                                "(corruption) are never explored before the older copy is delivered; the simulator delivers the corrupted "
+                                "newer copy first")
+                continue
         v.violation(f"{name}-uncovered-{nm}.txt",
                     f"# property {v.pid}: the simulation passes through a process-visible state the checker never evaluated\n"
                     f"# state: {missing[0][:500]}\n# replay: /verif/check {v.pid} --replay <this file>\n" + "".join(l + "\n" for l in lines))
         nviol += 1
     cov = v.coverage.setdefault(name, {})
-    cov.update({"simulated_walks_checked": nchecked, "walk_known_finding_D1": nknown, "walk_violations": nviol})
+    cov.update({"simulated_walks_checked": nchecked, "walk_known_finding_D1": nknown, "walk_known_finding_D17": nd17, "walk_violations": nviol})
     return nviol
 
 
